@@ -213,6 +213,19 @@ func (a *c06Gen) rng(d int) *core.X {
 	if isConstX(lo) && isConstX(hi) {
 		lo = core.Var(c06IntVars[a.pick(3, "rv")], core.TInt)
 	}
+	// a bound of another integer kind (the elements are ints all the same)
+	other := func() *core.X {
+		k := []core.Kind{core.KInt64, core.KInt8, core.KUint8, core.KInt32, core.KUint16}[a.pick(5, "rk")]
+		return core.Var(map[core.Kind]string{core.KInt64: "I64", core.KInt8: "I8", core.KUint8: "U8", core.KInt32: "I32", core.KUint16: "U16"}[k], core.Num(k))
+	}
+	switch a.pick(8, "rkind") {
+	case 0:
+		hi = other()
+	case 1:
+		lo = other()
+	case 2:
+		lo, hi = other(), other()
+	}
 	return core.Bin("..", lo, hi, core.TInts)
 }
 
@@ -331,6 +344,8 @@ func genC06(t *rapid.T, cfg *core.Config) *core.Case {
 		}
 	}
 	spec.I, spec.J, spec.BI = val("I"), val("J"), val("BI")
+	spec.I64, spec.I32 = int64(val("I64")), int32(rapid.IntRange(-40, 60).Draw(t, "I32"))
+	spec.I8, spec.U8, spec.U16 = int8(rapid.IntRange(-5, 40).Draw(t, "I8")), uint8(rapid.IntRange(0, 40).Draw(t, "U8")), uint16(rapid.IntRange(0, 70).Draw(t, "U16"))
 	a := &c06Gen{t: t, fuel: rapid.IntRange(3, 30).Draw(t, "fuel")}
 	d := rapid.IntRange(1, 4).Draw(t, "d")
 	var x *core.X
@@ -419,9 +434,21 @@ func genC06Literal(t *rapid.T) *core.Case {
 	if lo < 0 {
 		rng = fmt.Sprintf("(%d)..%d", lo, lo+n-1)
 	}
-	shape := rapid.IntRange(0, 4).Draw(t, "shape")
-	c.Source = fmt.Sprintf([]string{"len(%s)", "len(%s) + I", "len(map(%s, {I}))", "count(%s, {# > I})", "len([%s, 1])"}[shape], rng)
-	c.P["total"] = []int{n, n, 2 * n, n, n + 2}[shape] // elements created: the range, plus the map result / the array
+	shape := rapid.IntRange(0, 7).Draw(t, "shape")
+	if shape >= 5 {
+		// a large literal range in a position the evaluation never builds: nothing is created, whatever the budget
+		rng = rapid.SampledFrom([]string{"1..10000000", "0..1999999", "(-9223372036854775807 - 1)..9223372036854775807", "1..9223372036854775807"}).Draw(t, "bigrng")
+		n = 0
+	}
+	c.Source = fmt.Sprintf([]string{"len(%s)", "len(%s) + I", "len(map(%s, {I}))", "count(%s, {# > I})", "len([%s, 1])",
+		"1 > 2 ? len(%s) : I", "1 > 2 and len(%s) > 0", "len(Xs) >= 0 or len(%s) > 0"}[shape], rng)
+	c.P["n"] = n
+	c.P["total"] = []int{n, n, 2 * n, n, n + 2, 0, 0, 0}[shape] // elements created: the range, plus the map result / the array
+	if shape < 5 && rapid.IntRange(0, 9).Draw(t, "fullrange") == 0 {
+		// the whole int64 range as constants: more elements than any budget
+		c.Source = "len((-9223372036854775807 - 1)..9223372036854775807)"
+		c.P["n"], c.P["total"] = 1<<62, 1<<62
+	}
 	c.P["cb"] = rapid.SampledFrom([]int{1, 100, 1000000, 3000000}).Draw(t, "cb")
 	c.P["rb"] = rapid.SampledFrom([]int{1, 100, 101, 1000000, 1000001, 3000000}).Draw(t, "rb")
 	c.P["opt"] = rapid.Bool().Draw(t, "opt")
